@@ -79,6 +79,12 @@ def strict_equal(a, b):
             strict_equal(x, y) for x, y in zip(a, b))
     if hasattr(a, "items") and hasattr(b, "items"):
         return set(a) == set(b) and all(strict_equal(a[k], b[k]) for k in a)
+    # numpy scalars count as the Python number kind they print as (int / float / bool / complex)
+    import numpy as np
+    if isinstance(a, np.generic):
+        a = a.item()
+    if isinstance(b, np.generic):
+        b = b.item()
     return type(a) is type(b) and a == b
 
 
@@ -95,6 +101,11 @@ def items(tier):
     for d in skel.depth2(PRINTABLE + STRUCTS, PRINTABLE):
         add(d)
     for d in skel.with_consts(PRINTABLE + STRUCTS):
+        add(d)
+    # constants that are numpy scalars (what array code hands to the tree builders)
+    import numpy as np
+    for d in skel.with_consts(["sum2", "prod2", "quot", "pow", "call1", "sub1", "cmp_lt", "if", "neg", "tuple2"],
+                              [np.float64(1.5), np.int64(3), np.float32(0.5), np.int32(-2), np.int64(0)]):
         add(d)
     d3 = D3_QUICK + (D3_MORE if tier == "thorough" else [])
     for d in skel.depth3(d3):
